@@ -126,14 +126,14 @@ PLAN = {
     "C10": dict(
         title="Feedback blocks keep their repeated layers weight-tied",
         level="proof",
-        verus=["C10_feedback.rs", "C10_unroll.rs"],
+        verus=["C10_feedback.rs", "C10_unroll.rs", "C03_network_update.rs"],
         kani=True,
         native_checks=[("feedback.tied", "bounded native grid: repetitions bit-identical at creation and after training, parameters() counts once; 192 block networks")],
         undecided_clauses=[
             "copies are equal at creation: proved for the unrolling region of Feedback::create (unit feedback.unroll, R52) under the assumption that the derived `Clone` of a layer returns an equal value",
-            "the accumulation arms (add/subtract/multiply/mean over the members) and the per-copy optimizer steps of Feedback::update are NOT "
-            "verified (whole function out of reach of both tools); the claim is that whatever they produce, the final loop overwrites every "
-            "member of every couple with ONE value and the couples cover every unrolled layer",
+            "the per-copy optimizer steps of Feedback::update are proved per layer (unit feedback.update.dispatch); the accumulation arms (add/subtract/multiply/mean over the "
+            "members) are NOT verified; the claim is that whatever they produce, the final loop overwrites every member of every couple with ONE value and the couples "
+            "cover every unrolled layer",
             "parameters() counting each shared parameter once: read, not verified"],
     ),
     "C11": dict(
